@@ -240,8 +240,17 @@ func delayTable(spec string) *simbox.SimDelays {
 		var d int
 		f := strings.SplitN(e, ":", 2)
 		if len(f) == 2 {
-			fmt.Sscanf(f[1], "%d", &d)
-			sd.OpcodeDelays[f[0]] = simbox.DelayDistribution{int32(d): 1.0}
+			// "d+z1+z2": the value d with probability 1 and the values z1, z2 with probability 0
+			// (what simbox's Mutate leaves behind): still deterministic
+			vals := strings.Split(f[1], "+")
+			fmt.Sscanf(vals[0], "%d", &d)
+			dd := simbox.DelayDistribution{int32(d): 1.0}
+			for _, z := range vals[1:] {
+				var zv int
+				fmt.Sscanf(z, "%d", &zv)
+				dd[int32(zv)] = 0.0
+			}
+			sd.OpcodeDelays[f[0]] = dd
 		}
 	}
 	return sd
@@ -338,7 +347,8 @@ func simulateWith(bm *bondmachine.Bondmachine, c caseSpec, sd *simbox.SimDelays)
 				}
 			}
 		}
-		if _, e := vm.Step(sconfig); e != nil {
+		report, e := vm.Step(sconfig)
+		if e != nil {
 			return trace, e
 		}
 		var sb strings.Builder
@@ -355,9 +365,23 @@ func simulateWith(bm *bondmachine.Bondmachine, c caseSpec, sd *simbox.SimDelays)
 		if sdrive != nil {
 			fmt.Fprintf(&sb, "#%v.%v", vm.Inputs_regs[0], vm.Outputs_regs[0])
 		}
+		if report != "" {
+			sb.WriteString("#" + flatReport(report))
+		}
 		trace = append(trace, sb.String())
 	}
 	return trace, nil
+}
+
+// flatReport: the textual report of VM.Step (config:show_* options), VERBATIM (line breaks -> ';',
+// tabs dropped, blanks -> '_' so that it fits the one-word digest).  The per-processor blocks must come in
+// processor order on every run (repaired in /repo 0705c73; before, they came in worker-answer order).
+func flatReport(report string) string {
+	lines := strings.Split(strings.TrimRight(report, "\n"), "\n")
+	for i, l := range lines {
+		lines[i] = strings.TrimSpace(l)
+	}
+	return strings.ReplaceAll(strings.Join(lines, ";"), " ", "_")
 }
 
 var runCounter int
@@ -491,6 +515,10 @@ func genCases(tier string) []caseSpec {
 	dlyProg := []string{"rset r0 1", "inc r0", "add r0 r0", "nop", "inc r0", "r2o r0 o0", "j 1"}
 	cs = append(cs, caseSpec{ID: did + 1, P: 1, Rsize: 8, Ticks: 24, Dly: "inc:5,add:1", Prev: "inc:2,add:3", Progs: [][]string{dlyProg}})
 	cs = append(cs, caseSpec{ID: did + 2, P: 1, Rsize: 8, Ticks: 24, Dly: "inc:1,nop:4", Prev: "inc:3", Progs: [][]string{dlyProg}})
+	// delay distributions with one value of probability 1 and further values of probability 0
+	cs = append(cs, caseSpec{ID: did + 6, P: 1, Rsize: 8, Ticks: 30, Dly: "inc:2+7+9,add:1+5", Progs: [][]string{dlyProg}})
+	cs = append(cs, caseSpec{ID: did + 7, P: 2, Rsize: 16, Ticks: 40, Dly: "inc:3+1,nop:2+6+8+4,rset:1+3", Prev: "inc:1",
+		Progs: [][]string{dlyProg, {"rset r1 2", "nop", "inc r1", "nop", "r2o r1 o0", "j 1"}}})
 	for q := 0; q < 3; q++ {
 		ops := []string{"inc", "add", "nop", "rset", "r2o"}
 		mk := func() string {
@@ -545,6 +573,14 @@ func genCases(tier string) []caseSpec {
 		}
 		cs = append(cs, c)
 	}
+	// textual reports (config:show_*): every processor's lines must be its own, whatever the worker order
+	shProgs := [][]string{ioProg, {"rset r0 7", "inc r1", "add r0 r1", "r2o r0 o0", "j 1"}, {"rset r1 3", "nop", "inc r0", "add r1 r0", "nop", "j 1"}}
+	cs = append(cs, caseSpec{ID: n + 18, P: 2, Rsize: 8, Ticks: 12, Progs: shProgs[:2],
+		Rules: []string{"config:show_disasm", "absolute:0:set:i0:4"}})
+	cs = append(cs, caseSpec{ID: n + 19, P: 3, Rsize: 16, Ticks: 15, Progs: shProgs,
+		Rules: []string{"config:show_disasm", "config:show_pc", "config:show_ticks", "relative:4:set:i0:9"}})
+	cs = append(cs, caseSpec{ID: n + 20, P: 3, Rsize: 8, Ticks: 10, Progs: shProgs,
+		Rules: []string{"config:show_instruction", "config:show_proc_regs_pre", "config:show_io_post", "absolute:2:set:i0:1"}})
 	// stimuli written in every notation of the number library (plain, 0u, 0d, 0x, 0b, sized forms, 0f; values
 	// ending in zeros): the same text must mean the same value in every run
 	cs = append(cs, caseSpec{ID: n + 14, P: 1, Rsize: 16, Ticks: 26, Progs: [][]string{ioProg}, Rules: []string{
